@@ -18,6 +18,7 @@ EXPLANATION_ADDED2 = ' R1 also decides the converse for the PSK (upgrade reachab
 EXPLANATION = EXPLANATION + " Added while testing against seeded changes: " + EXPLANATION_ADDED + EXPLANATION_ADDED2
 EXPLANATION = EXPLANATION + " Rounds 12-13: (R5) the I/O type the upgrade task downcasts hyper's Upgraded to is the type every serve_connection_with_upgrades call of the tunnel service is given (a 101 answer is followed by a tunnel)."
 EXPLANATION = EXPLANATION + " Rounds 14-15: R5 also forbids pipeline_flush on the server's connections."
+EXPLANATION = EXPLANATION + " Rounds 16-17: (R6) no panicking Instant +/- Duration on a configured duration in the serving path; (R7) only the /ws handler touches the request's OnUpgrade extension."
 ASSUMPTIONS = ["http::HeaderValue equality is byte-exact; HeaderMap::get returns the first value of the named header",
                "sha1/base64 crates implement SHA-1 and standard base64"]
 NOT_DECIDED = "byte-equality of fallback responses with unknown-path responses (hyper / backend behaviour)"
